@@ -1928,6 +1928,7 @@ func (t *TBtree) SyncSnapshot() (*Snapshot, error) {
 	t.rwmutex.RLock()
 
 	if t.closed {
+		t.rwmutex.RUnlock()
 		return nil, ErrAlreadyClosed
 	}
 
